@@ -128,6 +128,18 @@ def run(tier):
                                      S.kron(sympy.eye(2), S.Ry(phi)) * S.CX * S.ket(1, 0)),
         'Id@Ket(0)@Id>>Id@CX': (Id(1) @ Ket(0) @ Id(1) >> Id(1) @ gates.CX,
                                 S.kron(sympy.eye(2), S.CX) * S.kron(sympy.eye(2), S.ket(0), sympy.eye(2))),
+        # several ancillas inserted to the LEFT of existing wires, then a gate on the far right qubit
+        'Ket(1)@Id(2)>>Ket(0)@Id(3)>>Id(3)@Y': (Ket(1) @ Id(2) >> Ket(0) @ Id(3) >> Id(3) @ gates.Y,
+                                                S.kron(sympy.eye(8), S.Y) * S.kron(S.ket(0), sympy.eye(8))
+                                                * S.kron(S.ket(1), sympy.eye(4))),
+        'Ket(0)@Id(1)>>Ket(1)@Id(2)>>Ket(0)@Id(3)>>Id(2)@CX>>Id(3)@Rx(phi)': (
+            Ket(0) @ Id(1) >> Ket(1) @ Id(2) >> Ket(0) @ Id(3) >> Id(2) @ gates.CX >> Id(3) @ Rx(phi),
+            S.kron(sympy.eye(8), S.Rx(phi)) * S.kron(sympy.eye(4), S.CX) * S.kron(S.ket(0), sympy.eye(8))
+            * S.kron(S.ket(1), sympy.eye(4)) * S.kron(S.ket(0), sympy.eye(2))),
+        'Id(1)@Ket(0)>>Ket(1)@Id(2)>>Id(1)@Bra(0)@Id(1)>>Id(1)@Rz(phi)': (
+            Id(1) @ Ket(0) >> Ket(1) @ Id(2) >> Id(1) @ Bra(0) @ Id(1) >> Id(1) @ Rz(phi),
+            S.kron(sympy.eye(2), S.Rz(phi)) * S.kron(sympy.eye(2), S.ket(0).T, sympy.eye(2))
+            * S.kron(S.ket(1), sympy.eye(4)) * S.kron(sympy.eye(2), S.ket(0))),
     }
     for name, (circ, want) in samples.items():
         suite.identity('circuit[%s].product' % name, eval_matrix(circ), mat_list(want), angle=phi,
